@@ -120,6 +120,16 @@ def writers(R):
             continue
         n = [m for m in g.live_nodes() if m.ast is s][0]
         ok = flag == 'closing' and fold(R, v, c) is True and bool(sc) and all_paths_pass(g, [g.entry], sc, [n], skip_edge=nx)
+        if ok:
+            # ... and directly after it: nothing that can raise sits between the write of the Close frame and the store
+            # (an exception there leaves the frame on the wire with the state still open - later sends go through)
+            between = [m for m in g.live_nodes() if any(m in g.succ_reach(s_, skip_edge=nx) for s_ in sc)
+                       and n in g.succ_reach(m, skip_edge=nx) and m is not n and m not in sc]
+            risky = [m.text()[:60] for m in between if m.calls and not all(U(c_.func).startswith('log.') for c_ in m.calls)]
+            R.ob('C08.writers', 'close(): nothing can fail between the Close write and closing=True', not risky,
+                 'close() evaluates %s after _send_close() and before state.closing = True: if that raises, the Close frame is '
+                 'on the wire but the websocket is not closing - other sends (and a second Close) are still written' % risky[:2],
+                 func=q, node=s, construct='close(): calls between the Close write and the closing store')
         R.ob('C08.writers', 'close(): closing=True only after the Close send attempt', ok,
              'close() stores %s=%s before _send_close(): write() would refuse the Close frame itself' % (flag, U(v)),
              func=q, node=s)
@@ -341,6 +351,24 @@ def client(R, RID='C08.client'):
         ok = not inh and y not in viaexc and any(all_paths_pass(gr, normal_succs(h), cs, [y], skip_edge=nx) for h in heads)
         R.ob(RID, 'graceful Disconnected is the normal-loop-exit path, after closing the socket', ok,
              'graceful Disconnected reachable from an exception handler or without _close_socket()', func=qr, node=y.ast)
+    if graceful:
+        # ... and only because the closing handshake is over (is_closed) or the peer ended the stream while the client was
+        # not active any more: any other way out of the loop (a flag a failed write sets ...) is not a graceful ending
+        from ..dataflow import ReachingDefs as _RD
+        rdr = _RD(gr)
+        bad = []
+        for h in [h for h in gr.live_nodes() if h.kind == 'loophead']:
+            if graceful[0] not in gr.reachable([h], skip_edge=nx):
+                continue
+            for l in path_conditions(R, gr, rdr, h, graceful[0]):
+                closed = ('self.websocket.state.closed', True) in l or ('websocket.state.closed', True) in l
+                eof_inactive = ('data', False) in l and (('self.websocket.is_active', False) in l or ('websocket.is_active', False) in l)
+                if not (closed or eof_inactive):
+                    bad.append(sorted(x for x in l if 'None' not in x[0])[:6])
+        R.ob(RID, 'graceful only after the closing handshake (or EOF while closing)', not bad,
+             'the graceful Disconnected is reached on a path on which neither is_closed holds nor an EOF arrived while the '
+             'websocket was no longer active: %s' % bad[:1], func=qr, node=graceful[0].ast,
+             construct='graceful Disconnected paths')
     conds = [m for h in gr.live_nodes() if h.kind == 'loophead' for m in normal_succs(h) if m.kind == 'test']
     R.ob(RID, 'loop exits when closed', any(U(c.ast).endswith('is_closed') for c in conds),
          'loop condition %s' % [U(c.ast) for c in conds], func=qr, node=None, construct='run loop condition')
